@@ -33,6 +33,10 @@ impl B {
         self.nodes.push(Node { kind: Kind::Basic(0), parents: vec![parent], rank: 0, prog: vec![Op::Append] });
         self.nodes.len() - 1
     }
+    fn finalize(&mut self, parent: usize) -> usize {
+        self.nodes.push(Node { kind: Kind::Finalize, parents: vec![parent], rank: 0, prog: vec![Op::Append] });
+        self.nodes.len() - 1
+    }
     fn merge(&mut self, l: usize, r: usize) -> usize {
         let (a, b) = if l < r { (l, r) } else { (r, l) };
         self.nodes.push(Node { kind: Kind::Merge, parents: vec![a, b], rank: 0, prog: vec![] });
@@ -56,7 +60,7 @@ impl B {
                 }
             };
             self.nodes[i].rank = (0x10 + (pos * 0xd0) / k.max(1)) as u8;
-            if keying == Keying::AltPrio {
+            if keying == Keying::AltPrio && self.nodes[i].kind != Kind::Finalize {
                 self.nodes[i].kind = Kind::Basic((j % 2) as u32);
             }
         }
@@ -109,6 +113,84 @@ pub fn nested(d: usize, keying: Keying) -> Dag {
     g.basic(t);
     g.basic(0);
     g.finish(keying)
+}
+
+/// `init – F1 – c1 … ck – F2` with a one-command side branch off init, F1 and every c_i: the
+/// finalize head keeps its strand parked, so the branch points below it stay live in the convergence
+/// map. All finalize commands are causally ordered. `parallel` adds a third finalize on the side
+/// branch off c1 (incomparable with F2).
+pub fn finalize_comb(k: usize, keying: Keying, parallel: bool) -> Dag {
+    let mut g = B::new();
+    let f1 = g.finalize(0);
+    let mut spine = vec![0, f1];
+    let mut p = f1;
+    for _ in 0..k {
+        p = g.basic(p);
+        spine.push(p);
+    }
+    for (j, &s) in spine.iter().enumerate() {
+        if parallel && j == 2 {
+            g.finalize(s);
+        } else {
+            g.basic(s);
+        }
+    }
+    // F2 arrives last so that it sits in its own segment
+    g.finalize(p);
+    g.finish(keying)
+}
+
+/// C05 on structured graphs that spill: ordered finalizes must never give ParallelFinalize
+/// (any error is reported by `run_graph`); the parallel variant must be refused.
+pub fn run_finalize_families(rep: &mut Report, thorough: bool) -> Vec<mcx::Value> {
+    let kmax = if thorough { 24 } else { 12 };
+    let mut jobs: Vec<(String, Dag, u8)> = Vec::new();
+    for &ky in &KEYINGS {
+        for k in 1..=kmax {
+            for seg in 0..3 {
+                jobs.push((format!("finalize_comb({k},{ky:?})"), finalize_comb(k, ky, false), seg));
+            }
+        }
+    }
+    let accs: Vec<Acc> = jobs
+        .par_iter()
+        .map(|(name, dag, seg)| {
+            let mut acc = Acc::default();
+            run_graph(dag, name, *seg, |_| false, &mut acc);
+            acc
+        })
+        .collect();
+    for a in accs {
+        rep.count("executions", a.executions);
+        rep.count("transitions", a.transitions);
+        rep.count("comb_runs", a.executions);
+        rep.count("comb_runs_that_spilled", a.spilled_runs);
+        for (k, d, r) in a.violations {
+            rep.violation(k, d, r);
+        }
+    }
+    // parallel variant: the final commit must fail with ParallelFinalize
+    let mut refused = 0u64;
+    for &ky in &KEYINGS {
+        for k in 2..=kmax.min(10) {
+            let dag = finalize_comb(k, ky, true);
+            let cmds = dag.cmds();
+            let mut r = MemReplica::new_mem(rtlib::replica::graph_id_of(cmds[0].id));
+            let mut t = r.trx();
+            let res = mcx::catch(|| r.add(&mut t, &cmds).and_then(|_| r.commit(t)));
+            rep.count("executions", 1);
+            match res {
+                Ok(Err(rtlib::rt::ClientError::ParallelFinalize)) => refused += 1,
+                other => rep.violation(
+                    format!("parallel-finalize-accepted: finalize_comb({k},{ky:?},parallel)"),
+                    format!("two incomparable finalize commands were not refused: {:?}", other.map(|x| x.map_err(|e| e.to_string()))),
+                    json!({"family": "finalize_comb", "k": k, "keying": format!("{ky:?}")}),
+                ),
+            }
+        }
+    }
+    rep.count("comb_parallel_refused", refused);
+    vec![json!({"family": "finalize comb (ordered finalizes over k side branches, flavour S spills for k >= 7)", "graphs": jobs.len()})]
 }
 
 #[derive(Default)]
